@@ -244,10 +244,17 @@ def hyp_explore(strategy: Any, body: Callable[[Any], None], n: int, seed: int, *
     )
     @given(strategy)
     def _t(ex: Any) -> None:
-        from vf.env.vclock import WallHang
+        from vf.env.vclock import CaseBudget, WallHang
 
         try:
             body(ex)
+        except CaseBudget:
+            # inconclusive, never a violation; but on a tree that has already shown a violation there is no point in paying for more
+            if CURRENT is not None:
+                CURRENT.note("cases abandoned on the wall-clock budget (inconclusive)")
+                CURRENT.budget_exhausted = True
+                if CURRENT.violations:
+                    raise StopExploration() from None
         except WallHang:
             # the library blocked the thread (virtual time cannot advance past a real lock): a violation of every property that
             # promises an answer - recorded, and this worker stops (each further case could cost the watchdog's delay again)
